@@ -39,6 +39,18 @@ pub fn construct_sim<K: SimKey>(h: &Header) -> Result<WtlfuSubj<K, SimKeyHasher,
                 .set_protected_hasher(SimBuildHasher::new(h.hashers[2]))
                 .set_false_positive_ratio(fp)
         )),
+        // every size / samples setter in the reverse order, over different initial values
+        2 => lib!(WTinyLFUCacheBuilder::<K, SimKeyHasher, SimBuildHasher, SimBuildHasher, SimBuildHasher>::new(cw + 1, cq + 2, cp + 3, h.samples + 1)
+            .set_false_positive_ratio(fp)
+            .set_samples(h.samples)
+            .set_probationary_cache_size(cp)
+            .set_protected_cache_size(cq)
+            .set_window_cache_size(cw)
+            .set_protected_hasher(SimBuildHasher::new(h.hashers[2]))
+            .set_probationary_hasher(SimBuildHasher::new(h.hashers[1]))
+            .set_window_hasher(SimBuildHasher::new(h.hashers[0]))
+            .set_key_hasher(kh)
+            .finalize::<TV>()),
         _ => return Err("bad ctor".into()),
     };
     r.map(|c| WtlfuSubj { c: Some(c) }).map_err(|e| format!("{:?}", e))
